@@ -296,7 +296,7 @@ type parser struct {
 }
 
 func (p *parser) peek() token { return p.t[p.i] }
-func (p *parser) next() token  { x := p.t[p.i]; p.i++; return x }
+func (p *parser) next() token { x := p.t[p.i]; p.i++; return x }
 
 // Parse reads a complete policy string (the whole input must be one formula).
 func Parse(s string) (*Node, error) {
